@@ -10,10 +10,14 @@ import (
 
 // A case is a flat list of items (so that check.py can shrink it by dropping items):
 //   Host n d   service svc-<n> is configured on the node with disposition d
+//   Ghost n    the node's service list names svc-<n> at this position, but the services section
+//              does not define it (tokens 11.., never hosted)
 //   Do op      one operation
-// The node configuration is the list of Host items in order (wherever they stand).
+// The node's service list is the Host and Ghost items in order (wherever they stand); the
+// hosted services are the Host items.
 
 func host(n int64, d string) hx.T { return hx.C("Host", n, d) }
+func ghost(n int64) hx.T          { return hx.C("Ghost", n) }
 func do(op hx.T) hx.T             { return hx.C("Do", op) }
 func cmd(c string) hx.T           { return do(hx.C("OCmd", c)) }
 func retired(n int64) hx.T        { return do(hx.C("OSvcCmd", n, "SRetired")) }
@@ -55,6 +59,29 @@ func execOnce(items []hx.T) (obs []any, nontrivial bool, tags []string) {
 			seen[it.Int(0)] = true
 			cfg = append(cfg, hx.Pair{A: it.Int(0), B: it.Args[1]})
 			tg["cfg-"+hx.AsTerm(it.Args[1]).Name] = true
+		} else if it.Name == "Ghost" {
+			cfg = append(cfg, hx.Pair{A: it.Int(0), B: dGhost})
+		}
+	}
+	ghosts, hostsAfterGhost := 0, 0
+	for _, it := range items {
+		switch it.Name {
+		case "Ghost":
+			ghosts++
+		case "Host":
+			if ghosts > 0 {
+				hostsAfterGhost++
+			}
+		}
+	}
+	if ghosts > 0 {
+		switch {
+		case len(seen) == 0:
+			tg["list-undefined-only"] = true
+		case hostsAfterGhost == 0:
+			tg["list-undefined-last"] = true
+		default:
+			tg["list-undefined-before-a-service"] = true
 		}
 	}
 	tg[fmt.Sprintf("services-%d", len(seen))] = true
@@ -220,6 +247,18 @@ func genConfig(cfg *hx.Config) (items []hx.T, toks []int64, allOk bool) {
 	}
 	if k > 0 && r.Intn(12) == 0 { // a service listed twice in the node configuration
 		items = append(items, host(toks[r.Intn(k)], hx.Pick(r, dispositions)))
+	}
+	if r.Intn(4) == 0 { // entries the services section does not define: first / middle / last, maybe twice
+		for g := int64(11); g <= 11+int64(r.Intn(2)); g++ {
+			p := r.Intn(len(items) + 1)
+			if r.Intn(3) == 0 {
+				p = 0
+			}
+			items = append(items[:p], append([]hx.T{ghost(g)}, items[p:]...)...)
+			if r.Intn(6) == 0 {
+				items = append(items, ghost(g)) // the same undefined name again
+			}
+		}
 	}
 	return
 }
@@ -460,6 +499,31 @@ func Run(cfg *hx.Config) error {
 	alphaT2 := []hx.T{topo(2), topo(0), queryAll(), cmd("CRetire"), retired(1), notify(2), hide(2), show(2)}
 	for L := 0; L <= d5; L++ {
 		enumerate(top2, alphaT2, L, func(c []hx.T) { emit(fmt.Sprintf("exhaustive-topo-2svc-%d", L), c) })
+	}
+	// the node's service list as a dimension: an entry the services section does not define at
+	// the first / middle / last position among two real services (also one of them listed twice),
+	// and a list of undefined entries only
+	d6 := 3
+	if cfg.Tier == "thorough" {
+		d6 = 4
+	}
+	alphaL := []hx.T{queryAll(), cmd("CRetire"), retired(1), retired(2), cmd("CExit"), cmd("CWebNodes")}
+	for li, list := range [][]hx.T{
+		{ghost(11), host(1, dOk), host(2, dOk)},
+		{host(1, dOk), ghost(11), host(2, dOk)},
+		{host(1, dOk), host(2, dOk), ghost(11)},
+		{host(2, dOk), ghost(11), host(1, dOk), ghost(12), host(2, dOk)},
+	} {
+		dl := d6
+		if li >= 2 { // undefined entry last / duplicates: one step less
+			dl = d6 - 1
+		}
+		for L := 0; L <= dl; L++ {
+			enumerate(list, alphaL, L, func(c []hx.T) { emit(fmt.Sprintf("exhaustive-list-%d-%d", li, L), c) })
+		}
+	}
+	for L := 0; L <= 2; L++ {
+		enumerate([]hx.T{ghost(11), ghost(12)}, alphaL, L, func(c []hx.T) { emit(fmt.Sprintf("exhaustive-list-undefined-only-%d", L), c) })
 	}
 	for i := 0; i < cfg.N; i++ {
 		switch i % 4 {
